@@ -54,6 +54,23 @@ partial def handle : Handler := fun j => do
     match deserializeCompact P segs with
     | .ok (_, pt) => pure (Json.mkObj [("r", "ok"), ("payload", toHex pt)])
     | .error _ => pure (Json.mkObj [("r", "error")])
+  | "json_struct" =>
+    let prot := ((getStrOpt j "protected").getD "").toUTF8.toList
+    let aadSeg := (getStrOpt j "aad").map fun a => a.toUTF8.toList
+    let recs : List Recipient := (← getArr j "recipients").toList.filterMap fun r =>
+      ((getStrOpt r "ek").bind ofHex).map fun ek => ⟨getStrOpt r "kid", ek⟩
+    let unwrapT : List (Bytes × Option Bytes) := (← getArr j "unwrap").toList.filterMap fun r => match r with
+      | .arr a => match (a[0]? : Option Json), (a[1]? : Option Json) with
+        | some k, some v => (optHex k).map fun kb => (kb, optHex v)
+        | _, _ => none
+      | _ => none
+    let decT : List (List Bytes × Option Bytes) := (← getArr j "dec").toList.filterMap fun r => match r with
+      | .arr a => some ((a.toList.take 2).filterMap optHex, (a[2]? : Option Json).bind optHex)
+      | _ => none
+    let P : JPrims := { unwrap := fun r => (unwrapT.lookup r.ek).join, dec := fun cek aad => (decT.lookup [cek, aad]).join }
+    match deserializeJson P ⟨prot, aadSeg, recs⟩ (getStrOpt j "key_kid") with
+    | some pt => pure (Json.mkObj [("r", "ok"), ("payload", toHex pt)])
+    | none => pure (Json.mkObj [("r", "error")])
   | op => throw s!"op {op}"
 
 end Driver.C03
